@@ -27,6 +27,12 @@ sheetb <text>                                        ReadNGSFilter on the BYTES 
 wk <K> K × [ marker ] W <n> n × [ <e> <indel> ]      n workers built one after the other on ONE library object:
                                                      `<fp> <rp> ferr rerr fpi rpi` of every marker after each (` >> `)
 ```
+[race] conc <g> <r> <entry w|d> <bs> <fmt> <style> <e> <indel> <K> K × [ marker ] <N> N × [ <id> <seq> ] hits N × K × [ 4 hit lists ]
+                                                     the N reads demultiplexed ALONE, in order, on one library object:
+                                                     `H <res 1> @@ … @@ <res N>`; the harness then sends the same reads
+                                                     through a second library from g goroutines (r rounds; entry w = the
+                                                     slice worker on batches of bs reads, d = ExtractMultiBarcode) and
+                                                     demands these answers from every call (`race`: under the race detector)
 byte strings in hex (`-` = empty).  Result: `sheet-error`, `panic`, `fatal` or
 `ok <n> ## <id>|<seq>|k=v;k=v… ## …` with the annotations sorted by key; for `sheet`:
 `ok <K> ## <fp> <rp> fsp rsp fdl rdl fin rin fmode rmode ferr rerr fpi rpi ftl rtl <ns> <ftag>:<rtag>=<sample>/<exp>[k=v,…] … ## …`
@@ -160,6 +166,46 @@ def pMulti : P String := do
         | some us => " ## ".intercalate (us.map showUnid)
       pure (h ++ " || out " ++ " ## ".intercalate (rt.out.map showRecord) ++ " || unid " ++ u)
 
+/-! ## the reads of a `conc` case, each alone (what every concurrent call must answer) -/
+
+def pConc : P String := do
+  let g ← pNat; let r ← pNat
+  let entry ← tok
+  let bs ← pNat
+  if g == 0 || r == 0 || bs == 0 || !(entry == "w" || entry == "d") then failure
+  let _ ← tok; let _ ← pNat; let _ ← pInt; let _ ← pNat
+  let k ← pNat
+  let markers ← rep pMarker k
+  let n ← pNat
+  if n == 0 then failure
+  let reads ← rep pRead n
+  pLit "hits"
+  let hits ← rep (rep pHits k) n
+  let rest ← get
+  if !rest.isEmpty then failure
+  if !primerUnicity (markers.map (·.1)) then pure "sheet-error" else
+  match markers.mapM (·.2) with
+  | none => pure "sheet-error"
+  | some ms =>
+    let rds := (reads.zip hits).map (fun (r, h) => (r.1, r.2, h))
+    -- the same state-passing model of the library object as the `multi` histories (Model/DemuxState.lean): by
+    -- Props/C12S.lean read_independence the answer of each read is its answer alone on the initial state, which is what
+    -- the harness demands from every concurrent call
+    let lms : List NgsFilter.LMarker := ms.map (fun m =>
+      { fp := m.fprimer, rp := m.rprimer, fsp := m.fspacer, rsp := m.rspacer, fdl := m.fdelim, rdl := m.rdelim,
+        fin := m.findels, rin := m.rindels, fmode := m.fmode, rmode := m.rmode, samples := m.samples })
+    let st := DemuxState.mkWorker 0 false (DemuxState.fresh lms)
+    let noHits : Hits := ⟨[], [], [], []⟩
+    let scan : DemuxState.Scan := fun fp rp _ seq =>
+      match rds.find? (fun rd => rd.2.1 == seq) with
+      | none => noHits
+      | some rd =>
+        match (ms.zip rd.2.2).find? (fun p => p.1.fprimer == fp && p.1.rprimer == rp) with
+        | some p => p.2
+        | none => noHits
+    let each := (DemuxState.runHistory scan st (rds.map (fun rd => (rd.1, rd.2.1)))).1
+    pure ("H " ++ " @@ ".intercalate (each.map showResult))
+
 /-! ## the sample sheet as read -/
 
 def insBy {α} (le : α → α → Bool) (x : α) : List α → List α
@@ -287,6 +333,14 @@ def run (line : String) : String :=
     | none => "bad-op"
   | "wk" :: rest =>
     match pWk.run rest with
+    | some (r, _) => r
+    | none => "bad-op"
+  | "conc" :: rest =>
+    match pConc.run rest with
+    | some (r, _) => r
+    | none => "bad-op"
+  | "race" :: "conc" :: rest =>
+    match pConc.run rest with
     | some (r, _) => r
     | none => "bad-op"
   | _ => "bad-op"
